@@ -97,7 +97,7 @@ def pixels(hdu):
 
 def build_files(root):
     """Write every file of FILES under root (paths relative to root/CWD) and measure, on the written files, the sky
-    position of the pixel coordinates <<x, y>>, x, y in {0, w, h}, of every WCS solution -> {(file, hdu, key): pts}."""
+    position of the pixel coordinates <<x, y>>, x, y in {0, w/2, h/2, w, h}, of every WCS solution -> {(file, hdu, key): pts}."""
     import warnings
     import numpy as np
     from astropy.io import fits
@@ -126,8 +126,9 @@ def build_files(root):
                     for sol in hdu.get("wcs", []):
                         wcs = WCS(hdul[j].header, key=sol["key"])
                         pts = []
-                        for x in sorted({0, hdu["w"], hdu["h"]}):
-                            for y in sorted({0, hdu["w"], hdu["h"]}):
+                        grid = sorted({0, hdu["w"], hdu["h"], hdu["w"] // 2, hdu["h"] // 2})
+                        for x in grid:
+                            for y in grid:
                                 c = wcs.pixel_to_world(x, y)
                                 ra, dec = np.radians(float(c.ra.deg)), np.radians(float(c.dec.deg))
                                 v = (np.cos(dec) * np.cos(ra), np.cos(dec) * np.sin(ra), np.sin(dec))
@@ -324,54 +325,40 @@ def core_key(c):
     return (c["files"], c["hdu"], c["key"], c["blank"], c["method"])
 
 
-def mc_module(name, tables, table, scripts=None, assumes=(), extra=()):
-    """The data tables, the calls, and - after them, so that TLC tabulates it with the data already tabulated - the Plan.
-    Calls that differ in out_dir / override only share one AnalyseCore."""
-    defs = list(tables)
+def data_module(tables, table, scripts=()):
+    """FitsTilerData: the input data as DEFINITIONS of a module FitsTiler extends (TLC tabulates them once, before the
+    Plan that uses them).  Calls that differ in out_dir / override only share one entry of CoreTable."""
+    defs = [(n[2:], v) for n, v in tables]          # Files, PathOf, Hdus
+    defs.append(("Marker", str(MARKER)))
     cores, cidx = [], {}
     for c in table:
         if core_key(c) not in cidx:
             cidx[core_key(c)] = len(cores) + 1
             cores.append(c)
-    defs.append(("MCCoreTable", "<<" + ",\n  ".join(call_tla(c) for c in cores) + ">>"))
-    defs.append(("MCCoreOf", tla.lit(tuple(cidx[core_key(c)] for c in table))))
-    defs.append(("MCCmdTable", "<<" + ",\n  ".join(call_tla(c) for c in table) + ">>"))
-    defs.append("MCCorePlan == [j \\in DOMAIN MCCoreTable |-> AnalyseCore(MCCoreTable[j])]")
-    defs.append("MCPlan == [k \\in DOMAIN MCCmdTable |-> Finish(MCCorePlan[MCCoreOf[k]], MCCmdTable[k])]")
-    defs.append("MCDirIds == {MCPlan[k].dir : k \\in DOMAIN MCCmdTable} \\ {<<>>}")
-    defs.append("ASSUME \\A k \\in DOMAIN MCCmdTable : CoreOf(MCCmdTable[k]) = CoreOf(MCCoreTable[MCCoreOf[k]])")
+    defs.append(("CoreTable", "<<" + ",\n  ".join(call_tla(c) for c in cores) + ">>"))
+    defs.append(("CoreOf", tla.lit(tuple(cidx[core_key(c)] for c in table))))
+    defs.append(("CmdTable", "<<" + ",\n  ".join(call_tla(c) for c in table) + ">>"))
     canon = {}
     for k, c in enumerate(table):
         canon.setdefault(call_key(c)[:-1], k + 1)
-    defs.append(("MCCanon", tla.lit(tuple(canon[call_key(c)[:-1]] for c in table))))
-    defs.append("ASSUME CanonOK(Cmds)")
-    if scripts is not None:
-        defs.append(("MCScripts", "{" + ", ".join(tla.lit(tuple(k + 1 for k in s)) for s in scripts) + "}"))
+    defs.append(("Canon", tla.lit(tuple(canon[call_key(c)[:-1]] for c in table))))
+    defs.append(("Scripts", "{" + ", ".join(tla.lit(tuple(k + 1 for k in s)) for s in scripts) + "}"))
     defs.append("Paths == {PathOf[f] : f \\in Files}")
-    defs.append("ASSUME \\A k \\in Cmds : Modelled(CmdTable[k])")
+    return tla.module("FitsTilerData", ["Integers", "Sequences", "TLC"], defs)
+
+
+def mc_modules(name, tables, table, scripts=(), assumes=(), extra=(), extends=()):
+    """-> the `extra` files of one TLC run: the data module and the root module with the assumptions to check."""
+    defs = ["ASSUME CoreTableOK(Cmds) /\\ CanonOK(Cmds)", "ASSUME \\A k \\in Cmds : Modelled(CmdTable[k])"]
     defs += ["ASSUME %s" % a for a in assumes]
     defs += list(extra)
-    # TLC tabulates a parameterless constant definition once - except the definition a cfg substitution (X <- MCX) names,
-    # which it re-evaluates at every use of X: the substituted names are made aliases of tabulated definitions
-    out = []
-    for d in defs:
-        if isinstance(d, str) and d.startswith("MC") and " == " in d:
-            d = tuple(d.split(" == ", 1))
-        if not isinstance(d, str) and d[0] in SUBSTITUTED:
-            out.append((d[0] + "Tab", d[1]))
-            out.append((d[0], d[0] + "Tab"))
-        else:
-            out.append(d)
-    return tla.module(name, ["MCFitsTiler"], out)
+    return {"FitsTilerData.tla": data_module(tables, table, scripts),
+            name + ".tla": tla.module(name, ["MCFitsTiler"] + list(extends), defs)}
 
 
-SUBSTITUTED = ("MCFiles", "MCPathOf", "MCHdus", "MCCmdTable", "MCPlan", "MCDirIds", "MCCanon", "MCScripts")
-
-
-def cfg(spec, maxcalls, invariants, scripts=False, view=False, clears=True):
-    lines = ["SPECIFICATION %s" % spec, "CONSTANTS", " Files <- MCFiles", " PathOf <- MCPathOf", " Hdus <- MCHdus", " Marker = %d" % MARKER,
-             " CmdTable <- MCCmdTable", " Plan <- MCPlan", " DirIds <- MCDirIds", " Canon <- MCCanon", " MaxCalls = %d" % maxcalls, " OverrideClears = %s" % ("TRUE" if clears else "FALSE"),
-             " Scripts <- MCScripts" if scripts else " Scripts = {}"]
+def cfg(spec, maxcalls, invariants, view=False, clears=True, stepbound=99):
+    lines = ["SPECIFICATION %s" % spec, "CONSTANTS", " MaxCalls = %d" % maxcalls, " OverrideClears = %s" % ("TRUE" if clears else "FALSE"),
+             " StepBound = %d" % stepbound]
     lines += ["INVARIANT %s" % i for i in invariants]
     if view:
         lines.append("VIEW ViewAll")
@@ -774,7 +761,9 @@ def run(ctx):
     red = reduced_table()
     choice = choice_table()
     index = dict((call_key(c), k) for k, c in enumerate(full))
-    bound_full = 2 if quick else 3
+    # full table: state invariants on every history of bound_full calls, the theorems about one more call from the
+    # histories of fewer than step_full calls; reduced table: everything to bound_red calls
+    bound_full, step_full = (2, 1) if quick else (3, 2)
     bound_red = 3 if quick else 4
     script_len = 4 if quick else 6
     n_random = 36 if quick else 300
@@ -798,44 +787,44 @@ def run(ctx):
         def tlc_rows():
             name = "MCG04Rows"
             outp = os.path.join(ctx.scratch, "rows.json")
-            mod = mc_module(name, tables, choice, assumes=STATIC_THEOREMS + ["DerivedNames(Paths)"] + ["~%s" % s for s in REFUTED_STATIC],
-                            extra=["ASSUME JsonSerialize(IOEnv.OUT, [rows |-> RowsOf(Cmds), dirids |-> DirIds])"])
-            mod = mod.replace("EXTENDS MCFitsTiler", "EXTENDS MCFitsTiler, IOUtils")
-            r = ctx.tlc(name, extra={name + ".tla": mod}, cfg_text=cfg("AllSpec", 0, STATE_INVARIANTS), env={"OUT": outp}, workers=1, timeout=900)
+            mods = mc_modules(name, tables, choice, assumes=STATIC_THEOREMS + ["DerivedNames(Paths)"] + ["~%s" % s for s in REFUTED_STATIC],
+                              extra=["ASSUME JsonSerialize(IOEnv.OUT, [rows |-> RowsOf(Cmds), dirids |-> DirIds])"], extends=["IOUtils"])
+            r = ctx.tlc(name, extra=mods, cfg_text=cfg("AllSpec", 0, STATE_INVARIANTS), env={"OUT": outp}, workers=1, timeout=900)
             return r, json.load(open(outp))
 
         def tlc_scripts():
             name = "MCG04Scripts"
             outp = os.path.join(ctx.scratch, "dirids.json")
-            mod = mc_module(name, tables, full, scripts=[s for _n, s in scripts], extra=["ASSUME JsonSerialize(IOEnv.OUT, [dirids |-> DirIds])"])
-            mod = mod.replace("EXTENDS MCFitsTiler", "EXTENDS MCFitsTiler, IOUtils")
-            r = ctx.tlc(name, extra={name + ".tla": mod}, cfg_text=cfg("ScriptSpec", script_len, STATE_INVARIANTS + ["RetAgrees", "Emit"], scripts=True),
+            mods = mc_modules(name, tables, full, scripts=[s for _n, s in scripts], extra=["ASSUME JsonSerialize(IOEnv.OUT, [dirids |-> DirIds])"],
+                              extends=["IOUtils"])
+            r = ctx.tlc(name, extra=mods, cfg_text=cfg("ScriptSpec", script_len, STATE_INVARIANTS + ["RetAgrees", "Emit"]),
                         env={"OUT": outp}, workers=4, timeout=1800)
             return r, r.json_lines("S"), json.load(open(outp))["dirids"]
 
         def tlc_walks():
             name = "MCG04Walks"
-            r = ctx.tlc(name, extra={name + ".tla": mc_module(name, tables, full)},
+            r = ctx.tlc(name, extra=mc_modules(name, tables, full),
                         cfg_text=cfg("FreeSpec", script_len, STATE_INVARIANTS + ["RetAgrees", "Emit"]), simulate=n_walks, depth=script_len + 1, workers=1, timeout=1800)
             return r, r.json_lines("S")
 
-        def tlc_all(table, bound, tag, static):
+        def tlc_all(table, bound, tag, stepbound):
             name = "MCG04All" + tag
-            return ctx.tlc(name, extra={name + ".tla": mc_module(name, tables, table, assumes=STATIC_THEOREMS[:1] if static else ())},
-                           cfg_text=cfg("AllSpec", bound, STATE_INVARIANTS + ["StepTheoremsBounded"], view=True), workers=6 if quick else 10, timeout=14400)
+            return ctx.tlc(name, extra=mc_modules(name, tables, table),
+                           cfg_text=cfg("AllSpec", bound, STATE_INVARIANTS + ["StepTheoremsBounded"], view=True, stepbound=stepbound),
+                           workers=4 if quick else 10, timeout=14400)
 
         def tlc_refute(inv, clears=True, tag=""):
             # breadth first, one worker: the counterexample is a shortest history
             name = "MCG04Not" + inv + tag
-            return ctx.tlc(name, extra={name + ".tla": mc_module(name, tables, red)},
+            return ctx.tlc(name, extra=mc_modules(name, tables, red),
                            cfg_text=cfg("LastSpec", 3, [inv], clears=clears), workers=1, timeout=3600, expect_violation=True, count=False)
 
         with cf.ThreadPoolExecutor(max_workers=6) as tex:
             f_scripts = tex.submit(tlc_scripts)
             f_rows = tex.submit(tlc_rows)
             f_walks = tex.submit(tlc_walks)
-            f_all = tex.submit(tlc_all, full, bound_full, "Full", True)
-            f_red = tex.submit(tlc_all, red, bound_red, "Reduced", False)
+            f_all = tex.submit(tlc_all, full, bound_full, "Full", step_full)
+            f_red = tex.submit(tlc_all, red, bound_red, "Reduced", 99)
             f_ref = dict((inv, tex.submit(tlc_refute, inv)) for inv in REFUTED) if not quick else {}
             # the model must be able to tell an override that keeps the old tiles apart (negative control of the machine itself)
             f_ctl = tex.submit(tlc_refute, "CompleteIsConsistent", False, "Keeps")
@@ -968,7 +957,7 @@ def run(ctx):
         if planned.get(need, 0) < 2:
             ctx.machinery("the histories to replay take action %s %d times: they no longer reach it" % (need, planned.get(need, 0)))
     ctx.exhaustive = True
-    ctx.note("tlc_all_histories", {"full_table": {"calls": len(full), "bound": bound_full, "distinct_states": r_all.distinct, "transitions": r_all.generated},
+    ctx.note("tlc_all_histories", {"full_table": {"calls": len(full), "bound": bound_full, "step_theorems_after_fewer_than": step_full, "distinct_states": r_all.distinct, "transitions": r_all.generated},
                                    "reduced_table": {"calls": len(red), "bound": bound_red, "distinct_states": r_red.distinct, "transitions": r_red.generated},
                                    "invariants": STATE_INVARIANTS, "step_theorems": STEP_THEOREMS, "static_theorems": STATIC_THEOREMS + ["DerivedNames"]})
     ctx.note("tlc_refuted_ideals", refuted)
